@@ -190,6 +190,8 @@ func Cmp(ei, ej Object) int {
 		panic("Unexpected type in Cmp: " + ti.String())
 	case EXTENSION:
 		return cmp.Compare(ei.(Extension).Name, ej.(Extension).Name)
+	case QUOTE: // quotes are values too (q = quote(1+2); q == q): ordered by their text, like functions.
+		return cmp.Compare(ei.(Quote).Inspect(), ej.(Quote).Inspect())
 	case FUNC:
 		return cmp.Compare(ei.(Function).CacheKey, ej.(Function).CacheKey)
 	case MAP:
@@ -248,8 +250,8 @@ func Cmp(ei, ej Object) int {
 	case STRING:
 		return cmp.Compare(ei.(String).Value, ej.(String).Value)
 
-	// RETURN, QUOTE, MACRO, ANY aren't expected to be compared.
-	case RETURN, QUOTE, MACRO, UNKNOWN, ANY:
+	// RETURN, MACRO, ANY aren't expected to be compared.
+	case RETURN, MACRO, UNKNOWN, ANY:
 		panic(fmt.Sprintf("Unexpected type in Cmp: %s", ti))
 	}
 	return 1
